@@ -38,12 +38,16 @@ var c02exprs = []c02tpl{
 	{`int(a) + m["k"]`, false}, {"int(a) + s[1]", false}, {"int(a) + o.n", false}, {"o.Get(int(a))", false}, {"id(int(a))", false}, {"G + int(a)", false},
 	{"a /\n\t\tb", true}, {"a +\n\t\tb", true}, {"a *\n\t\tb", true}, {"a -\n\t\tb", true}, {"boom(\n\t\tint(a))", false}, {"o.Boom(\n\t\tint(a))", false}, {"s[int(a)]", false}, {"o.s[int(b)+\n\t\t1]", false},
 	{"int(a) + o.s[1]", false}, {`int(a) + o.m["k"]`, false}, {`m["k"] + s[1]`, false}, {"o.n + o.n", false}, {"int(a) + fm[0.5]", false}, {"s[len(s)-1]", false}, {"int(b) - 0", false}, {"o.p.n + 1", false}, {"o.Sum(int(a), 1, 2, 3)", false}, {"o.Sum(int(a))", false}, {"o.Sum(1, s...)", false}, {"vsum(int(a), 2, 3)", false}, {"vsum()", false}, {"vsum(s...)", false},
+	// operands in their zero state: reads of nil maps and slices yield zero values / faults, identically in both modes
+	{`int(a) + nm["k"]`, false}, {"int(a) + nfm[0.5]", false}, {"int(a) + nim[3]", false}, {"int(a) + len(ns) + len(nm)", false}, {"int(a) + ns[0]", false}, {"int(a) + no.n", false}, {"int(a) + o.q", false}, {`int(a) + o.nm["k"]`, false}, {`len(sm["k"]) + int(a)`, false}, {`len(nsm["k"]) + int(a)`, false},
 }
 
 var c02stmts = []c02tpl{
 	{"a++", true}, {"a--", true}, {"a += 3", true}, {"a -= 3", true}, {"a = a + 1", true}, {"a = a - 1", true}, {"a = b + a", true}, {"a *= b", true},
 	{`m["k"] = int(a)`, false}, {"s[1] = int(a)", false}, {"o.n = int(a)", false}, {"o.n++", false}, {`m["k"]++`, false}, {"s[1] += int(a)", false}, {"G++", false},
 	{"o.n += s[1]", false}, {`m["k"] += o.n`, false}, {"o.s[1] = int(a)", false}, {"o.p.n = int(a)", false}, {"fm[0.5] = int(a)", false}, {"s = append(s, int(a))", false}, {"o.Add(int(a))", false},
+	// a field computed from ANOTHER field plus a constant (looks like the in-place increment window), stores into zero-state operands
+	{"o.q = o.n + 3", false}, {"o.q = o.n - 3", false}, {"o.n = o.q + 1", false}, {"o.p.n = o.n + 1", false}, {"o.q = o.q + 1", false}, {"o.q += 2", false}, {"o.q++", false}, {`nm["k"] = int(a)`, false}, {"ns[0] = int(a)", false}, {"no.n = int(a)", false}, {"nim[3] = int(a)", false}, {"ns = append(ns, int(a))", false}, {`sm["k"] = "v"`, false}, {"im[3] = int(a)", false}, {"im[3]++", false}, {"bs[1] = 300 - 45", false}, {"bs[1]++", false}, {"bs[1] += 200", false},
 }
 
 // neighbourhoods with a hole %E (an int-valued expression) or %S (a statement)
@@ -83,10 +87,12 @@ const c02decls = `type P struct {
 }
 
 type O struct {
-	n int
-	m map[string]int
-	s []int
-	p *P
+	n  int
+	m  map[string]int
+	s  []int
+	p  *P
+	q  int
+	nm map[string]int
 }
 
 func (o *O) Get(a int) int {
@@ -170,7 +176,7 @@ func corpusFusion() []cItem {
 	add := func(body string, t c4T) {
 		name := fmt.Sprintf("F%d", len(funcs))
 		tn := c4name[t]
-		fn := fmt.Sprintf("func %s(a %s, b %s, c bool) int {\n\to := &O{n: 7, m: map[string]int{\"k\": 4}, s: []int{1, 2, 3}, p: &P{n: 9}}\n\tm := map[string]int{\"k\": 4}\n\tfm := map[float64]int{0.5: 6}\n\ts := []int{1, 2, 3}\n\tr := 0\n%s\treturn r*100000 + int(a)*1000 + o.n*100 + m[\"k\"]*10 + s[1] + o.p.n + fm[0.5] + len(s) + o.s[1] + G\n}\n", name, tn, tn, c02indent(body, "\t"))
+		fn := fmt.Sprintf("func %s(a %s, b %s, c bool) int {\n\to := &O{n: 7, m: map[string]int{\"k\": 4}, s: []int{1, 2, 3}, p: &P{n: 9}}\n\tm := map[string]int{\"k\": 4}\n\tfm := map[float64]int{0.5: 6}\n\ts := []int{1, 2, 3}\n\tvar nm map[string]int\n\tvar nfm map[float64]int\n\tvar nim map[int]int\n\tvar ns []int\n\tvar no *O\n\t_ = no\n\tvar nsm map[string]string\n\tsm := map[string]string{\"k\": \"vv\"}\n\tim := map[int]int{3: 1}\n\tbs := []byte{1, 250}\n\tr := 0\n%s\treturn r*100000 + int(a)*1000 + o.n*100 + m[\"k\"]*10 + s[1] + o.p.n + fm[0.5] + len(s) + o.s[1] + G + o.q*7 + len(nm) + len(nfm) + len(nim) + len(ns)*3 + len(sm[\"k\"]) + im[3]*11 + int(bs[1])*13 + len(nsm)\n}\n", name, tn, tn, c02indent(body, "\t"))
 		// W calls F from a frame with live locals: the result must not depend on where F's frame sits on the stack,
 		// and F must not touch its caller's slots (checked by C07 as a differential between the two calls)
 		fn += fmt.Sprintf("\nfunc W%s(a %s, b %s, c bool) int {\n\tp0, p1, p2 := 11, 22, 33\n\tr := %s(a, b, c)\n\tif p0 != 11 || p1 != 22 || p2 != 33 {\n\t\treturn 777777\n\t}\n\treturn r\n}\n", name[1:], tn, tn, name)
@@ -309,6 +315,10 @@ func c02run(r *report.Run) {
 		}
 		if fusedHere > 0 {
 			r.Nontrivial(items[i].Name)
+		}
+		if strings.HasPrefix(items[i].Name, "fusion/") && (len(off[i]) <= 1 || len(on[i]) <= 1) {
+			// a template package that does not even load hides all its functions from the comparison
+			r.HarnessError("fusion-window package %s does not load: off: %s on: %s", items[i].Name, trunc(strings.Join(off[i], " | "), 300), trunc(strings.Join(on[i], " | "), 300))
 		}
 		n := len(off[i])
 		if len(on[i]) != n {
